@@ -392,6 +392,8 @@ def memo_key_rule(chk: Check, rule: str, fns: list[FuncInfo], suppress: dict[tup
                 keys = list(c.args[:-1]) + ([recv] if recv is not None else [])
                 stores.append((s, keys, c.args[-1]))
         for site, keys, value in stores:
+            if isinstance(value, ast.Name) and value.id in params_of(fn.node):
+                continue  # a setter (`def insert(self, key, value): self._cache[key] = value`): the memo logic is its caller's
             n += 1
             key_chains: set[str] = set()
             for k in keys:
